@@ -6,7 +6,8 @@ def handlers : List (String × (List String → Option String)) :=
   [ ("grid", Grid.handle),
     ("estep", Engine.handleStep), ("eflush", Engine.handleFlush), ("ewf", Engine.handleWf),
     ("estepref", Engine.handleStepRef), ("eflushref", Engine.handleFlushRef),
-    ("interp-linear", Series.handleLinear), ("interp-previous", Series.handlePrevious), ("series-insert", Series.handleInsert) ]
+    ("interp-linear", Series.handleLinear), ("interp-previous", Series.handlePrevious), ("series-insert", Series.handleInsert),
+    ("capacity", Coverage.handleCapacity), ("propcov", Coverage.handlePropcov), ("effcov", Coverage.handleEffcov) ]
 
 /-- One request per line: `<kind> <args…>`; one canonical reply per line. -/
 def dispatch (line : String) : String :=
